@@ -270,6 +270,19 @@ func runC20(c *fw.Ctx) {
 				text = gen.PrintCanonical(cs.Script).Text
 			}
 		}
+		if class == "typed" && r.Chance(1, 8) {
+			// a text that starts with a byte order mark (what some editors write at the start of a file)
+			text = "\ufeff" + text
+			class = "typed+bom"
+		}
+		if class == "typed" && r.Chance(1, 8) {
+			// strings with printf-like contents reaching the metadata
+			s := r.Pick("fee: 2.5% of the amount", "%d %s %v", "100%", "%!", "50%% off", "%")
+			cs.Script.Stmts = append(cs.Script.Stmts, &gen.Call{Name: "set_tx_meta", Args: []gen.Expr{gen.S("note"), gen.S(s)}},
+				&gen.Call{Name: "set_account_meta", Args: []gen.Expr{gen.A("a"), gen.S(s), gen.S(s)}})
+			text = gen.PrintCanonical(cs.Script).Text
+			class = "typed+percent-strings"
+		}
 		if class == "typed" && r.Chance(1, 6) {
 			// a monetary / asset value whose asset name needs escaping in JSON (assets that arrive
 			// through variables are not restricted to the literal grammar)
